@@ -3,7 +3,7 @@
 From Coq Require Import List Arith Bool NArith.
 From FFSM2 Require Import Model.TaskList Model.BitArray Model.BitStream Model.Plan Model.Ancestors Model.Machine
   Proofs.BitArrayProofs Proofs.TaskListProofs Proofs.TaskListRun Proofs.PlanProofs Proofs.MachineFrame Proofs.MachinePlan Proofs.MachineLife Proofs.GuardProofs Proofs.CycleProofs Proofs.PlanStep
-  Proofs.SerialProofs Proofs.LogProofs Proofs.MachineTop Model.Multi Generated.InitFacts Proofs.ConstructProofs Proofs.LifeMonitor Proofs.ActivationRounds Proofs.IndexSafety Proofs.FeatureProofs Model.Script Proofs.Contract Proofs.Histories Proofs.StatusBits.
+  Proofs.SerialProofs Proofs.LogProofs Proofs.MachineTop Model.Multi Generated.InitFacts Proofs.ConstructProofs Proofs.LifeMonitor Proofs.ActivationRounds Proofs.IndexSafety Proofs.FeatureProofs Model.Script Proofs.Contract Proofs.Histories Proofs.StatusBits Proofs.Worlds.
 Import ListNotations.
 
 (* loading what any instance of the same type saved, into any loader state: the loader ends with the saver's activity,
@@ -139,4 +139,25 @@ Theorem C12_reachable_states_can_be_saved :
          saver_ok P cfg (co P (run P cfg orc lg ops)).
 Proof. exact (reachable_saver_ok). Qed.
 Print Assumptions C12_reachable_states_can_be_saved.
+
+(* several instances: j.save(buffer); i.load(buffer) at any point of any accepted multi-instance script (the instances
+   may be copies, may have been loaded before, may have gone through any calls) leaves instance i with instance j's
+   activity by exactly the lifecycle change needed, enter/exit/reenter callbacks only *)
+Theorem C12_every_load_between_instances_of_every_script :
+  forall (P : Type) (cfg : config) (orc_of : nat -> oracle P),
+         wf_cfg cfg ->
+         (forall i : nat, wf_oracle P cfg (orc_of i)) ->
+         forall (slots : nat) (pre : list (wop P)) (i j : nat) (post : list (wop P)),
+         first_violation P cfg orc_of 0 {| insts := repeat None slots; glog := [] |}
+           (pre ++ WLoadFrom P i j :: post) = None ->
+         exists si sj si' : mstate P,
+           get_inst P (wrun P cfg orc_of slots pre) i = Some si /\
+           get_inst P (wrun P cfg orc_of slots pre) j = Some sj /\
+           get_inst P (wrun P cfg orc_of slots (pre ++ [WLoadFrom P i j])) i = Some si' /\
+           active P (co P si') = active P (co P sj) /\
+           (exists l : list (event P),
+              tr P si' = l ++ tr P si /\
+              change P cfg (active P (co P si)) (active P (co P sj)) l /\ Forall (only_life P) l).
+Proof. exact (every_load_between_instances). Qed.
+Print Assumptions C12_every_load_between_instances_of_every_script.
 
